@@ -83,7 +83,7 @@ def prefix_of(reader, writer):
 def reader_trees(W, qname, cls):
     """set of TLV trees consumed along accepting paths of a from_der"""
     from sa.lin import S
-    res, it, raises = rest_consumption(W, qname, [cls, VBytes(STR)], watch=("keys:SigningKey.from_string",))
+    res, it, raises = rest_consumption(W, qname, [cls, VBytes(STR)], watch=("keys:SigningKey.from_string", "der:remove_integer"))
     finals = it.watch_returns[qname]
     readers = der_readers(W.p)
     calls = []
@@ -193,6 +193,25 @@ def run(chk):
             okc &= isinstance(tg, VInt) and fs.proves_eq(tg.lin)
     chk.ob("R09.1", "reader constants: ECPrivateKey version == 1 (written: 1) at every accepting return; context tag == 0 (written: [0]) where parameters are read [%d tagged state(s)]" % ntag, okc and ntag > 0,
            loc=f.qname, key="C09|R09.1|constants", detail="from_der can accept an ECPrivateKey whose version is not 1 or whose parameters tag is not [0]")
+    # PKCS#8 paths: the outer version the writer emits (INT 1, see want_p8) must be acceptable to the
+    # reader, i.e. not refuted by the facts of any accepting return that went through the
+    # PKCS#8 branch (two INTEGER reads on the path)
+    ri = [c for c in it_sk.watch_results["der:remove_integer"] if c[0] == f.qname]
+    sites_ri = sorted({c[1][1] for c in ri})
+    okv8 = len(sites_ri) == 2
+    n8 = ncompat = 0
+    if okv8:
+        v1s = {term_of(v.items[0]): v.items[0] for c in ri if c[1][1] == sites_ri[0] for v, _s in c[5] if isinstance(v, VTuple) and isinstance(v.items[0], VInt)}
+        second = [set(l.h() for l in c[4].cons.ges) for c in ri if c[1][1] == sites_ri[1]]
+        for _v, fs in it_sk.watch_returns[f.qname]:
+            hs = fs.cons._hset()
+            if not any(c <= hs for c in second):
+                continue
+            n8 += 1
+            if len(v1s) == 1 and fs.assume_eq(list(v1s.values())[0].lin - 1).really_feasible():
+                ncompat += 1
+    chk.ob("R09.1", "PKCS#8 reader accepts the outer version the writer emits (1) [%d of %d PKCS#8 accepting state(s) admit version 1]" % (ncompat, n8), okv8 and ncompat > 0, loc=f.qname, key="C09|R09.1|p8-version",
+           detail="no accepting PKCS#8 path of from_der is compatible with the version INTEGER 1 that to_der(format='pkcs8') writes: the library cannot read its own PKCS#8 output")
     oid_w = [n for n in ast.walk(sk_der.node) if isinstance(n, ast.Call) and norm_text(n.func).endswith("encode_oid")]
     chk.ob("R09.1", "PKCS#8 writer uses oid_ecPublicKey, which the reader accepts", len(oid_w) == 1 and norm_text(oid_w[0].args[0]) == "*oid_ecPublicKey" and any(isinstance(n, ast.Name) and n.id == "oid_ecPublicKey" for n in ast.walk(f.node)), loc=sk_der.qname, key="C09|R09.1|oid", detail="algorithm OID written is not among those accepted")
     # ---------------- R09.7
